@@ -11,7 +11,12 @@ if st.stdout.strip():
     print("refusing: /repo is not clean"); sys.exit(2)
 r = sh(f"git -C /repo apply --whitespace=nowarn {patch}")
 if r.returncode != 0:
-    print("patch does not apply:", r.stderr[:500]); sys.exit(2)
+    # the patch was made against an earlier commit of /repo: fall back to a three-way merge
+    r = sh(f"git -C /repo apply --3way --whitespace=nowarn {patch}")
+    if r.returncode != 0 or "with conflicts" in r.stderr:
+        sh("git -C /repo reset -q --hard")
+        print("patch does not apply:", r.stderr[:500]); sys.exit(2)
+    sh("git -C /repo reset -q")   # --3way stages the result; keep it in the working tree only
 out = {}
 try:
     for c in checks:
@@ -27,7 +32,7 @@ try:
                   "no_failing_input": any("no-failing-input-found" in v for v in viol), "wall_s": round(time.time() - t0)}
         print(c, json.dumps(out[c]))
 finally:
-    sh("git -C /repo checkout -- . && git -C /repo clean -fdq -e target")
+    sh("git -C /repo reset -q && git -C /repo checkout -- . && git -C /repo clean -fdq -e target")
     st = sh("git -C /repo status --porcelain")
     if st.stdout.strip():
         print("WARNING: /repo not clean after undo:", st.stdout[:300])
